@@ -34,8 +34,8 @@ EXITS = ["start", "p_version", "p_validate", "p_enable", "p_disable", "p_testcon
 
 # (MaxOn, SrvSel) of the complete design model / of the exhaustive emission family; cap on replayed runs
 FULL = {"quick": (2, "small"), "thorough": (3, "small")}
-BOUNDED = {"quick": (2, "small", 2600), "thorough": (2, "all", 30000)}
-RANDOM = {"quick": (1500, 700, 700), "thorough": (20000, 8000, 12000)}     # NRandom, -simulate num, cap
+BOUNDED = {"quick": (2, "small", 2300), "thorough": (2, "all", 30000)}
+RANDOM = {"quick": (1500, 600, 500), "thorough": (20000, 8000, 12000)}     # NRandom, -simulate num, cap
 
 ASSUMPTIONS = [
     "every phase is the REAL function of insights/client/phase/v1.py run to its exit in a forked child of the driver "
@@ -117,7 +117,11 @@ def run_models(tier, rng):
     if tier != "quick":      # quick: the bounded emission run below IS the complete design model (same states, same invariants)
         jobs.append(("design", "ClientPhases",
                      put("ClientPhases_full.cfg", cfg_text("Spec", "intent", FULL[tier][0], FULL[tier][1], INVARIANTS)),
-                     dict(workers=3, coverage=True)))
+                     dict(workers=3)))
+        # TLC's coverage report (slows TLC several times) on the single-flag model: every action must be taken
+        jobs.append(("coverage", "ClientPhases",
+                     put("ClientPhases_cov.cfg", cfg_text("Spec", "intent", 1, "small", INVARIANTS)),
+                     dict(workers=1, coverage=True)))
     for inv in REFUTE:
         jobs.append(("refute:" + inv, "ClientPhases", put("ClientPhases_refute_%s.cfg" % inv[2:], cfg_text("Spec", "code", 2, "small", [inv], focus=REFUTE_FOCUS)),
                      dict(workers=1)))
@@ -148,8 +152,10 @@ def run_models(tier, rng):
             lib.require_ok(r, "ClientPhases " + name)
     design = res.get("design") or res["bounded"]
     if tier != "quick":
-        design.coverage = action_coverage(design)
-        missing = [a for a in ACTIONS if not design.coverage.get(a)]
+        design.coverage = action_coverage(res["coverage"])
+        # TLC reports the per-point actions (PreVersion ... AtExit are all Take(point)) under the name Take; that every
+        # point is really passed is checked below on the replayed runs (EXITS) - here: both action shapes were taken
+        missing = [a for a in ("Take", "NextPhase") if not design.coverage.get(a)]
         if missing:
             raise lib.MachineryError("vacuity: actions never taken in the model: %s" % missing)
     cases, emitted, strata = [], {}, {}
